@@ -250,19 +250,33 @@ Theorem user_supplied_dependencies_kept_refuted :
 Proof. exact user_supplied_dependencies_kept_l. Qed.
 Print Assumptions user_supplied_dependencies_kept_refuted.
 
-(* a filter_ref on a COMPONENT of a tuple input (table written by the user) is
-   never seen by ValidateFilterRefs: validation succeeds, Dependencies is
-   empty, the reference query on a's table is issued -- without [flat] the
-   lookups are NOT covered by the dependencies *)
-Theorem nested_reference_escapes_refuted :
-  match validate_fix U_ascii ex_G ex_nested_root with
+(* REPAIRED (fixes/C05-filter-ref-on-components.diff).  Before the repair a
+   filter_ref on a COMPONENT of a tuple input (table written by the user) was
+   never seen by ValidateFilterRefs: validation succeeded, Dependencies stayed
+   empty, the reference query on a's table was issued with the user's table
+   and without dependency ordering.  [legacy_validate_fix] is the model of the
+   old pass. *)
+Theorem legacy_nested_reference_escapes_refuted :
+  match legacy_validate_fix U_ascii ex_G ex_nested_root with
   | Some c' =>
-      map (fun g => (ig_deps g, declared_refs g, declared_refs_deep g, cfg_lookups g)) (integs c')
+      map (fun g => (ig_deps g, legacy_declared_refs g, declared_refs_deep g, cfg_lookups g)) (integs c')
       = [([], [], [], []); ([], [], [nm_a], [(nm_ta, nm_addr)])]
   | None => False
   end.
-Proof. exact nested_ref_escapes_l. Qed.
-Print Assumptions nested_reference_escapes_refuted.
+Proof. exact legacy_nested_ref_escapes_l. Qed.
+Print Assumptions legacy_nested_reference_escapes_refuted.
+
+(* the repaired pass walks the components: the same configuration gets the
+   dependency ([declared_refs] ranges over the inputs and their components) *)
+Theorem nested_reference_validated :
+  match validate_fix U_ascii ex_G ex_nested_root with
+  | Some c' =>
+      map (fun g => (ig_deps g, declared_refs g, cfg_lookups g)) (integs c')
+      = [([], [], []); ([nm_a], [nm_a], [(nm_ta, nm_addr)])]
+  | None => False
+  end.
+Proof. exact nested_ref_validated_l. Qed.
+Print Assumptions nested_reference_validated.
 
 (* Non-vacuity.  Four integrations a, b (input filter_ref -> a), c, d
    (block-field filter_ref -> c): Dependencies of b = [a], of d = [c], after
